@@ -97,6 +97,13 @@ def cases(shard, nshards, seed, tier):
             for cfg, beh in (("none", "ok"), ("cbc", "raise")):
                 if mine():
                     yield {"family": "exhaustive-fallback", "n": n8, "pairs": pairs, "config": cfg, "behaviour": beh, "entry": "getter"}
+    # more levels than there are digits: 11 and 12 mutually crossing stems (orders 10 and 11 exist) under every cell
+    for kk in (11, 12):
+        pairs = sorted((s_ + 1, kk + s_ + 1) for s_ in range(kk))
+        for cfg, beh in cells():
+            for entry in ENTRIES:
+                if mine():
+                    yield {"family": "more-than-ten-levels", "n": 2 * kk, "pairs": pairs, "config": cfg, "behaviour": beh, "entry": entry}
     for fam, n, pairs in structs:
         for cfg, beh in cells():
             for entry in ENTRIES:
